@@ -75,6 +75,8 @@ def run(ctx):
                                   "dependency contract is wrong")
     from props import c01_deductive
     c01_deductive.run(ctx)
+    from contracts import c_portrefs
+    ctx.verify(c_portrefs.engine(), c_portrefs.VERIFY, min_obligations={c_portrefs.VERIFY[0].key: 10})
     ctx.run_bounded(
         "to_proto-vs-meaning", design_family(ctx.tier, ctx.seed),
         lambda c: check_design(c),
